@@ -380,6 +380,43 @@ impl Runner {
                 }
             }
         }
+        // C07 under eviction policy random (any limit, also one below a single record): an incr/decr without CAS creates the
+        // item on an absent key (unless the expiration field says 'do not create') and updates a live numeric one — a memory
+        // limit may evict other items, or this one afterwards, but never turns the command into a failure
+        if let wire::Cmd::Delta { key, exp, .. } = &cmd {
+            if h.cas == 0 && status != 0xffff {
+                let now = self.now;
+                let rec = self.prev_recs.iter().find(|(pk, _)| pk == key).map(|(_, r)| r);
+                // Some(true) live, Some(false) absent/expired, None = within a second of its deadline
+                let live: Option<bool> = match rec {
+                    None => Some(false),
+                    Some(r) if r.ttl == 0 => Some(true),
+                    Some(r) => {
+                        let dl = r.ts + r.ttl as u64;
+                        if dl > now + 1 { Some(true) } else if dl + 1 < now { Some(false) } else { None }
+                    }
+                };
+                let text = rec.and_then(|r| std::str::from_utf8(&r.value).ok().map(|t| t.to_string()));
+                let numeric = text.as_deref().map_or(false, |t| !t.is_empty() && t.bytes().all(|b| b.is_ascii_digit()) && t.parse::<u64>().is_ok());
+                let expect: Option<u16> = match live {
+                    Some(false) => Some(if *exp == 0xffff_ffff { 1 } else { 0 }),
+                    Some(true) if numeric => Some(0),
+                    _ => None,
+                };
+                if let Some(e) = expect {
+                    if status != e {
+                        self.oracle.violations.push(oracle::Violation {
+                            props: vec!["C07"],
+                            line: self.ops.len(),
+                            msg: format!(
+                                "under eviction policy random (memory limit {}) an incr/decr without CAS (expiration field {:#x}) on the {} key {} was answered with status {:#x}, not {:#x} (inner calls: {:?})",
+                                self.policy_limit.unwrap_or(0), exp, if live == Some(true) { "live numeric" } else { "absent" }, wire::hexd(key), status, e, log
+                            ),
+                        });
+                    }
+                }
+            }
+        }
         let set_called = log.iter().any(|e| matches!(e, crate::sut::RecEv::Set(_)));
         if status == 0 && set_called {
             self.cur_mut_ok = true;
@@ -526,7 +563,7 @@ impl Runner {
         }
         for _ in 0..count {
             let mut rng = master.fork();
-            let mem: u64 = if profile == "C14" || profile == "C02" { *rng.pick(&[10u64, 40, 60, 100, 100, 150, 250, 400, 1000]) } else { *rng.pick(&[2000u64, 5000, 20000]) };
+            let mem: u64 = if profile == "C14" || profile == "C02" { *rng.pick(&[10u64, 40, 60, 100, 100, 150, 250, 400, 1000]) } else if profile == "C07" { *rng.pick(&[10u64, 30, 60, 100, 250, 1000, 5000]) } else { *rng.pick(&[2000u64, 5000, 20000]) };
             self.exec(&format!("newp 4096 {}", mem));
             let mut g = GenState::new(&mut rng, &p, if profile == "C14" || profile == "C02" { 400 } else { 300 });
             let n = rng.range(p.len.0, p.len.1);
